@@ -114,7 +114,14 @@ func runAuth(rec *Rec, sc *AuthScenario, n int, rnd *rand.Rand) {
 			rec.Emit("AuthFail", "why", "recv", "code", st.Code())
 			return nil, st
 		}
-		if token == "good" {
+		if token == "boom" {
+			var short []byte
+			_ = short[7] // the checker function panics on this token
+		}
+		if token == "setid-bad" || token == "setid-good" {
+			sess.SetID("user-" + token) // the checker assigns the id before it decides
+		}
+		if token == "good" || token == "setid-good" {
 			rec.Emit("AuthOK")
 			return "welcome", nil
 		}
@@ -151,6 +158,12 @@ func runAuth(rec *Rec, sc *AuthScenario, n int, rnd *rand.Rand) {
 		first = packFrame(erpc.TypeAuthCall, 1, "", "good", nil)
 	case "authbad":
 		first = packFrame(erpc.TypeAuthCall, 1, "", "bad", nil)
+	case "authpanic":
+		first = packFrame(erpc.TypeAuthCall, 1, "", "boom", nil)
+	case "authsetidbad":
+		first = packFrame(erpc.TypeAuthCall, 1, "", "setid-bad", nil)
+	case "authsetidgood":
+		first = packFrame(erpc.TypeAuthCall, 1, "", "setid-good", nil)
 	case "authundecodable":
 		first = packFrame(erpc.TypeAuthCall, 1, "", []byte("{{{not json"), nil)
 	case "authstatus":
@@ -251,6 +264,12 @@ func runAuth(rec *Rec, sc *AuthScenario, n int, rnd *rand.Rand) {
 		}
 	}
 	_, listed := srv.GetSession(cname)
+	for _, id := range []string{"user-setid-bad", "user-setid-good"} {
+		if _, ok := srv.GetSession(id); ok {
+			listed = true
+		}
+	}
+	srv.RangeSession(func(erpc.Session) bool { listed = true; return true })
 	serverClosed := false
 	if sess == nil {
 		// the server side must have closed its end: a write from the client fails or the reader saw EOF
